@@ -249,6 +249,12 @@ def handlers : List (String × Handler) := [
       ("r2p", errOrJson affJson (refToPixForImage ds frame total)),
       ("i2r", errOrJson affJson (imgToRefForImage ds frame total)),
       ("r2i", errOrJson affJson (refToImgForImage ds frame total))]))),
+  ("coordSystem", fun j => do
+    let strs := fun (k : String) => do
+      let a ← getArr j k
+      a.toList.mapM (fun (x : Json) => x.getStr?)
+    let r := imageCoordinateSystem ⟨← strs "present", ← strs "first_item"⟩
+    pure (okJson (match r with | some .slide => Json.str "slide" | some .patient => Json.str "patient" | none => Json.null))),
   ("forImages", fun j => do
     let dsF ← imageDsOf (← j.getObjVal? "ds_f")
     let dsT ← imageDsOf (← j.getObjVal? "ds_t")
